@@ -539,7 +539,7 @@ package priority
 //@     invariant [*] forall k :: dom(inputs, k) <==> in($visited, k)
 //@     invariant [*] forall a :: 0 <= a && a < len(priorities) ==> (in($visited, priorities[a]) && in(gPset, priorities[a]))
 //@     invariant [*] forall a, b :: 0 <= a && a < b && b < len(priorities) ==> priorities[a] != priorities[b]
-//@     invariant [C15] forall k :: in($visited, k) ==> in(pset(priorities, len(priorities)), k)
+//@     invariant [C15] visited-keys-are-listed: forall k :: in($visited, k) ==> in(pset(priorities, len(priorities)), k)
 //@     invariant [* C02 C07] forall k :: dom(inputs, k) ==> !inputs[k].Drained
 //@     invariant [C05] forall k :: dom(inputs, k) ==> cap(inputs[k].Channel) != 0
 //@     invariant [*] msum(strategic) == 0
